@@ -492,3 +492,35 @@ def spec_func(self, fn):
 
 
 _V.Config.spec_func = spec_func
+
+
+# ---------------------------------------------------------------------------
+# performance only: obligations whose goal the simplifier reduces to `true` are settled in-process, before
+# the fork pool of solve.discharge_all is started (most C14 obligations are of that kind since both sides of
+# an equation are built from the same normal forms); the verdict is the one solve.discharge would give
+# ---------------------------------------------------------------------------
+from . import solve as _SV  # noqa: E402
+
+_orig_discharge_all = _SV.discharge_all
+
+
+def discharge_all(obligations, timeout_ms=20000, procs=14, seed=0, both=False):
+    import time as _time
+
+    out = [None] * len(obligations)
+    rest = []
+    for i, ob in enumerate(obligations):
+        if not ob.expect_sat and not both:
+            t0 = _time.time()
+            if z3.is_true(z3.simplify(ob.goal)):
+                out[i] = {'status': 'proved', 'backend': 'simplifier', 'time': _time.time() - t0}
+                continue
+        rest.append(i)
+    if rest:
+        res = _orig_discharge_all([obligations[i] for i in rest], timeout_ms, procs, seed, both)
+        for i, r in zip(rest, res):
+            out[i] = r
+    return out
+
+
+_SV.discharge_all = discharge_all
